@@ -121,8 +121,15 @@ func (d *SimDB) Lock(c context.Context, id *url.URL) error {
 			}
 		}
 	}
+	fn := callerFn()
 	msg := d.s.yield(Op{Kind: opLock, Method: "db.Lock", Srv: d.host(), ID: ids})
 	t := d.s.cur
+	if msg.fault == nil {
+		if t.heldBy == nil {
+			t.heldBy = map[string]string{}
+		}
+		t.heldBy[key] = fn
+	}
 	d.s.monSeam(t, "db", "Lock", d.host())
 	if msg.fault != nil {
 		d.s.logEv(Event{Srv: d.host(), Kind: "db.Lock", ID: ids, Fault: true, Res: "err"})
